@@ -59,7 +59,46 @@ func dominatingGuards(b *ssa.BasicBlock) []guard {
 			if edgeDominates(blk, si, b) {
 				c, v := unNot(iff.Cond, val)
 				out = append(out, guard{If: iff, Cond: c, Val: v})
+				out = appendShortCircuitParts(out, iff, c, v, 0)
 			}
+		}
+	}
+	return out
+}
+
+// appendShortCircuitParts: a condition that was computed as a value (`switch { case a || b: ... }`, `ok := a && b`)
+// is the phi of a short-circuit evaluation: [constant from the block that decided early, last operand]. When the
+// phi is known to be false for `||` (true for `&&`) every operand is known: the early-deciding blocks did not
+// decide (their condition had the other outcome) and the last operand has the phi's value.
+func appendShortCircuitParts(out []guard, iff *ssa.If, cond ssa.Value, val bool, depth int) []guard {
+	phi, ok := cond.(*ssa.Phi)
+	if !ok || depth > 3 || len(phi.Edges) < 2 {
+		return out
+	}
+	for i, e := range phi.Edges {
+		pred := phi.Block().Preds[i]
+		if isConstBool(e, !val) {
+			// this edge carries the outcome the phi does not have: it was not taken. The block it comes from ends in
+			// a branch one of whose edges is this one.
+			pi, isIf := pred.Instrs[len(pred.Instrs)-1].(*ssa.If)
+			if !isIf || len(pred.Succs) != 2 || pred.Succs[0] == pred.Succs[1] {
+				return out
+			}
+			taken := pred.Succs[0] != phi.Block() // the edge into the phi block was not taken, so the other one was
+			c2, v2 := unNot(pi.Cond, taken)
+			out = append(out, guard{If: iff, Cond: c2, Val: v2})
+			out = appendShortCircuitParts(out, iff, c2, v2, depth+1)
+			continue
+		}
+		if isConstBool(e, val) {
+			return out // the phi's value says nothing about the other operands
+		}
+	}
+	for _, e := range phi.Edges {
+		if _, isC := e.(*ssa.Const); !isC {
+			c2, v2 := unNot(e, val)
+			out = append(out, guard{If: iff, Cond: c2, Val: v2})
+			out = appendShortCircuitParts(out, iff, c2, v2, depth+1)
 		}
 	}
 	return out
